@@ -77,7 +77,8 @@ def cases(draw):
                 "unknown": draw(st.sampled_from(UNKNOWN))}
     steps = []
     for _ in range(draw(st.integers(1, 6))):
-        steps.append({"how": draw(st.sampled_from(["validates", "create-version", "create-noversion", "extend-version"])),
+        steps.append({"how": draw(st.sampled_from(["validates", "create-version", "create-noversion", "extend-version",
+                                                    "validates-after-meta-swap"])),
                       "base": draw(st.sampled_from(impl.DRAFTS)),
                       "id": draw(st.sampled_from(["http://verif.test/meta-a#", "http://verif.test/meta-b",
                                                   "http://verif.test/meta-c#", IDS[4], "urn:verif:meta",
@@ -325,6 +326,13 @@ class C20(Prop):
             if how == "validates":
                 new = V.create(meta_schema=meta, validators=dict(base.VALIDATORS), type_checker=base.TYPE_CHECKER,
                                id_of=base.ID_OF)
+                new = V.validates(version)(new)
+                reg = True
+            elif how == "validates-after-meta-swap":
+                # the route the documentation of extend() prescribes for a dialect with a metaschema of its own: derive,
+                # assign META_SCHEMA, then register -- under the id the class has NOW
+                new = V.extend(base)
+                new.META_SCHEMA = meta
                 new = V.validates(version)(new)
                 reg = True
             elif how == "create-version":
